@@ -41,6 +41,8 @@ structure Tables where
   argsInPlace : Bool
   argsSortedOnce : Bool
   condByIdentity : Bool
+  writerIntKinds : List String
+  anonAmongOthers : Bool
   reflectOptionalRefused : Bool
   eventVarsEmpty : Bool
   symbolBaseEnum : Bool
